@@ -124,7 +124,9 @@ def _gen_cases(tier, seed):
                "core": core.tolist(), "tfactors": [f.tolist() for f in tf], "sparse_core": bool(i % 3 == 0),
                "dense": gen.normals(rng, shp).tolist(),
                "sparse": gen.sparsify(rng, gen.normals(rng, shp), "some").tolist(),
-               "parts": [["tensor", "sptensor", "ktensor", "ttensor"][int(x)] for x in rng.integers(0, 4, size=2)],
+               "parts": ([["tensor", "sptensor", "ktensor", "ttensor"][int(x)] for x in rng.integers(0, 4, size=2)] if i % 4 else
+                         # every kind of part after a dense first part, and longer sums
+                         [["tensor", "sptensor"], ["tensor", "tensor", "sptensor", "ttensor"], ["tensor", "ktensor", "sptensor"], ["sptensor", "tensor"]][(i // 4) % 4]),
                "rdims": r, "cdims": c}
     # 1-way and rank-1 corners, always present
     for shp in [(1,), (2,), (4,), (1, 1), (3, 1), (1, 2, 1)]:
@@ -145,6 +147,7 @@ def gen_cases(tier, seed):
     # dense-holder history: every third case reaches its dense operand by growth (subtensor assignment past the extent) instead of the constructor
     for i, case in enumerate(_gen_cases(tier, seed)):
         case["hist"] = "grown" if (i + int(seed)) % 3 == 1 else "ctor"
+        case["dense_type"] = ["float", "int64", "float", "int32", "int64"][(i + int(seed)) % 5]
         yield case
 
 
@@ -345,7 +348,11 @@ def _structured(case, ctx, shape):
     N = len(shape)
     K = gen.mk_ktensor(ttb, case["weights"], case["factors"])
     TT = gen.mk_ttensor(ttb, case["core"], case["tfactors"], case["sparse_core"])
-    dense = ttb.tensor(np.array(case["dense"], dtype=float).reshape(shape))
+    dtp = case.get("dense_type", "float")
+    darr = np.array(case["dense"], dtype=float).reshape(shape)
+    # element type of the dense part: a sum of parts is computed in the common (promoted) type, whatever the order of the parts
+    dense = ttb.tensor(darr if dtp == "float" else np.round(darr * 3.0).astype(dtp))
+    ctx.feat(dense_type=dtp)
     sparse = gen.mk_sptensor(ttb, np.array(case["sparse"], dtype=float).reshape(shape))
     holders = {"ktensor": K, "ttensor": TT, "tensor": dense, "sptensor": sparse}
     ctx.feat(R=case["R"])
